@@ -215,10 +215,14 @@ def emit_block(ti, stmts, ind, out, sites):
             eb = st.get('nobrace') and unbraceable(st['else'])
             out.append('%sif (%s)%s' % (p, c_cond(ti, st['cond'], typed=False), '' if tb else ' {'))
             emit_block(ti, st['then'], ind + 1, out, sites)
-            out.append('%s%selse%s' % (p, '' if tb else '} ', '' if eb else ' {'))
-            emit_block(ti, st['else'], ind + 1, out, sites)
-            if not eb:
-                out.append('%s}' % p)
+            if st.get('noelse') and not st['else']:  # if without else
+                if not tb:
+                    out.append('%s}' % p)
+            else:
+                out.append('%s%selse%s' % (p, '' if tb else '} ', '' if eb else ' {'))
+                emit_block(ti, st['else'], ind + 1, out, sites)
+                if not eb:
+                    out.append('%s}' % p)
         elif k == 'for':
             nb = st.get('nobrace') and unbraceable(st['body'])
             out.append('%sfor (v%d[%d] = 0; v%d[%d] < %d; v%d[%d]++)%s' % (p, ti, st['var'], ti, st['var'], st['n'], ti, st['var'], '' if nb else ' {'))
@@ -258,15 +262,15 @@ def emit_block(ti, stmts, ind, out, sites):
             site = len(sites)
             sites.append(site)
             cp = 'cpt%d_%d' % (ti, site)
-            out.append('%s{ /* spawn site %d */' % (p, site))
-            if k == 'spawn':
+            if k == 'spawn':  # two statements: always a block of its own
+                out.append('%s{ /* spawn site %d */' % (p, site))
                 out.append('%s\tPT_SPAWN(&%s, thread%d(&%s));' % (p, cp, st['child'], cp))
                 out.append('%s\tev(PT_CHILD_OK() ? %d : %d);' % (p, st['a'], st['b']))
-            elif k == 'spawn_check':
-                out.append('%s\tPT_SPAWN_AND_CHECK(&%s, thread%d(&%s));' % (p, cp, st['child'], cp))
+                out.append('%s}' % p)
+            elif k == 'spawn_check':  # one macro, one statement: no braces of ours around it
+                out.append('%sPT_SPAWN_AND_CHECK(&%s, thread%d(&%s)); /* spawn site %d */' % (p, cp, st['child'], cp, site))
             else:
-                out.append('%s\tPT_CALL(&%s, thread%d(&%s));' % (p, cp, st['child'], cp))
-            out.append('%s}' % p)
+                out.append('%sPT_CALL(&%s, thread%d(&%s)); /* spawn site %d */' % (p, cp, st['child'], cp, site))
 
 def emit_c(prog):
     out = ['/* generated by pt_check.py */', '#include <assert.h>', '#include <stdio.h>', '#include <stdlib.h>',
@@ -384,11 +388,21 @@ def strategies():
                      st.builds(lambda ch, a, b: dict(k='spawn', child=ch, a=a, b=b), st.sampled_from(children), st.integers(200, 249), st.integers(250, 299)),
                      st.builds(lambda ch: dict(k='call', child=ch), st.sampled_from(children))]
         rare = [st.just(dict(k='exit')), st.just(dict(k='fail'))]
+        if ti > 0:  # children fail a little more often than the root
+            rare.append(st.builds(lambda c: dict(k='fail_on', cond=c), cond()))
         opts = leaf + leaf + rare
+        if children:
+            # PT_SPAWN_AND_CHECK / PT_SPAWN as the unbraced body of an else-less if or of a loop: each macro has to be one statement
+            one = st.builds(lambda kk, ch, a, b: dict(k=kk, child=ch, a=a, b=b) if kk == 'spawn' else dict(k=kk, child=ch),
+                            st.sampled_from(['spawn_check', 'spawn_check', 'call', 'spawn']), st.sampled_from(children), st.integers(200, 249), st.integers(250, 299))
+            opts.append(st.builds(lambda c, body: dict(k='if', cond=c, then=[body], nobrace=True, noelse=True, **{'else': []}), cond(), one))
+            if free and depth < 3:
+                lv0 = free[0]
+                opts.append(st.builds(lambda n, body: dict(k='for', var=lv0, n=n, body=[body], nobrace=True), st.integers(2, 3), one))
         if depth < 3:
             sub = lambda lv: st.deferred(lambda: st.lists(stmts(ti, nthreads, depth + 1, lv), min_size=0, max_size=3))
             sub1 = lambda lv: st.deferred(lambda: st.lists(stmts(ti, nthreads, depth + 1, lv), min_size=1, max_size=1))
-            opts.append(st.builds(lambda c, a, b, nb: dict(k='if', cond=c, then=a, nobrace=nb, **{'else': b}), cond(), sub(loopvars), sub(loopvars), st.booleans()))
+            opts.append(st.builds(lambda c, a, b, nb, ne: dict(k='if', cond=c, then=a, nobrace=nb, noelse=ne, **{'else': b}), cond(), sub(loopvars), sub(loopvars), st.booleans(), st.booleans()))
             opts.append(st.builds(lambda c, a, b, nb: dict(k='if', cond=c, then=a, nobrace=nb, **{'else': b}), cond(), sub1(loopvars), sub1(loopvars), st.booleans()))
             if free:
                 lv = free[0]
